@@ -213,6 +213,15 @@ Qed.
    - an array step goes through [prim_to_index] + for_len (or the helper parse_index), then `&v[idx]`;
    - an object step through decoded + lookup.
    [IH] closes the recursive calls, whatever selector the model pushed on its [rpath]. *)
+(* closing a recursive call: by the induction hypothesis as it stands, or after normalising the counters the source passes on
+   (`offset += 1 + tok_len` may be written `offset = offset + tok_len + 1`: same number, different term) *)
+Ltac close_rec IH :=
+  first [ apply IH
+        | match goal with
+          | |- omap _ (?g ?fuel ?self ?ptr ?o1 ?p1 ?v) = forget (?m ?fuel' ?ptr' ?v' ?o2 ?p2 ?rp) =>
+              replace o1 with o2 by lia; replace p1 with p2 by lia; apply IH
+          end ].
+
 Ltac walk_head ptr :=
   rewrite gen_split_front_eq;
   destruct (split_front ptr) as [[tok rem]|]; cbn [option_map]; [|reflexivity];
@@ -221,10 +230,10 @@ Ltac walk_head ptr :=
 Ltac walk_obj IH tok m :=
   let c := fresh "c" in let Hc := fresh "Hc" in let Ht := fresh "Ht" in
   destruct (gen_decoded_tokB tok) as (c & Hc & Ht); rewrite Hc, Ht;
-  destruct (obj_lookup (decoded tok) m); [apply IH|reflexivity].
+  destruct (obj_lookup (decoded tok) m); [close_rec IH|reflexivity].
 
 Ltac walk_child IH l idx :=
-  rewrite list_get_nth_error; destruct (nth_error l (N.to_nat idx)); [apply IH|reflexivity].
+  rewrite list_get_nth_error; destruct (nth_error l (N.to_nat idx)); [close_rec IH|reflexivity].
 
 (* the inline array step: token.to_index().map_err(..)?.for_len(v.len()).map_err(..)? ; &v[idx] *)
 Ltac walk_arr_inline IH tok l :=
